@@ -287,6 +287,25 @@ def evaluate(case, mode, opts, wd, counters):
     return out
 
 
+def _only_real_conditions_differ(after1, after0):
+    """True if the two transformed sources differ only in IF / ELSE IF / DO WHILE / WHERE condition lines and at least
+    one of the differing lines holds a real literal (simplify re-associated a kept real-valued condition)"""
+    from collections import Counter
+
+    def lines(after):
+        text = '\n'.join(t for _n, t in after) if not isinstance(after, str) else after
+        text = re.sub(r'&\s*\n\s*&?', '', text)
+        return [re.sub(r'\s+', '', l.lower()) for l in text.split('\n') if l.strip()]
+    c1, c0 = Counter(lines(after1)), Counter(lines(after0))
+    diff = list((c1 - c0).elements()) + list((c0 - c1).elements())
+    if not diff:
+        return False
+    cond = re.compile(r'^(\w+:)?(elseif|if|dowhile|where)\(')
+    if not all(cond.match(l) for l in diff):
+        return False
+    return any(re.search(r'\d\.\d|\d\.?_8|\d\.(?!\w)', l) for l in diff)
+
+
 def generic_key(mode, ev):
     fam = FAMILY[mode]
     if ev['symptom'] == 'exception':
@@ -327,6 +346,13 @@ def run_case(idx, rng, tier, ctx):
                     key, wcase, wev = generic_key(mode, bev), base, bev
                 elif bev['outcome'] == 'ok':
                     key = f"{HAZ[hazard][1]}:{ev['symptom']}"
+            elif ev['symptom'] not in ('exception', 'compile', 'runtime') and opts.get('simplify') and mode in ('dce1',):
+                # attribution for the simplify-rewrites-a-kept-real-condition mechanism: the same program with
+                # use_simplify=False must pass and the two transformed texts may differ only in condition lines
+                bev = evaluate(case, 'dce0', dict(opts, simplify=False), wd, res['counters'])
+                res['counters']['simplify_attribution_runs'] = 1
+                if bev['outcome'] == 'ok' and _only_real_conditions_differ(ev['after'], bev['after']):
+                    key = 'deadcode-simplify:kept-real-condition-reassociated-by-simplify:differ'
             res['violations'].append({
                 'key': key, 'msg': f"mode={mode} opts={opts} hazard={hazard}: {wev['detail']}"[:700],
                 'witness': {'mode': mode, 'opts': opts, 'hazard': hazard, 'files': wcase.files,
